@@ -531,6 +531,9 @@ def _judge(r, pname, sname, cfg, k_ps=None, reuse=None):
         # the reported pieces must reproduce the returned intensity
         with np.errstate(all="ignore"):
             recon = PQ * (np.array(results["S_eff(Q)"][1], float) if beta else SQ) + BACKGROUND
+        if beta:
+            # beta(Q) = <F>^2/<F^2> is 0/0 where the form factor vanishes (e.g. invalid geometry): nothing to recombine
+            recon = np.where(F2 == 0.0, impl, recon)
         if not refmodel.close(recon, impl, magn, rtol=1e-11)[0]:     # same inputs on both sides: no S slack
             bad("recombine", "P(Q)*S(Q)+background", recon, impl)
     if len(r.fails) > nfail0:
